@@ -4,6 +4,7 @@ import (
 	"encoding/json"
 	"fmt"
 	"path/filepath"
+	"strings"
 	"sync"
 	"syscall"
 	"time"
@@ -134,10 +135,23 @@ func clusterKillCase(c *lib.Ctx, dirName, id, victimKind string, delay, down tim
 			c.Seen("cluster_kill_kinds", victimKind)
 		}
 		if killed && !restarted && time.Now().After(restartAt) {
-			np, err := startServer(procs[victim].dir, procs[victim].base, "", "run2")
+			var np *srvProc
+			var err error
+			for try := 0; try < 4; try++ {
+				np, err = startServer(procs[victim].dir, procs[victim].base, "", fmt.Sprintf("run2-%d", try))
+				if err == nil {
+					break
+				}
+				// server.Start gives up when it sees no leader within 5 s: on a loaded machine that is a matter of
+				// timing, not of the data; only a start that dies for another reason is a verdict
+				if !strings.Contains(err.Error(), "timeout expired") && !strings.Contains(err.Error(), "not ready") {
+					fail("restart-failed", fmt.Sprintf("the killed %s cannot be restarted on its data: %v", victimKind, err))
+					return "violated"
+				}
+				time.Sleep(500 * time.Millisecond)
+			}
 			if err != nil {
-				fail("restart-failed", fmt.Sprintf("the killed %s cannot be restarted on its data: %v", victimKind, err))
-				return "violated"
+				return "inconclusive"
 			}
 			procs[victim] = np
 			restarted = true
